@@ -58,6 +58,8 @@ func C09(c *Ctx) {
 	r.Rule("R09.2", "hash last: in processExecuteEvent (and genesis) every store to a header field that BlockHeader.Hash covers (field set read from the pinned bitxhub-model source) is sequenced before block.BlockHash = block.Hash(); BlockHash is assigned from Hash() of the same block.")
 	r.Rule("R09.3", "parent link: ParentHash is assigned from the executor's currentBlockHash, which is assigned only from the just-persisted block's BlockHash (after PersistBlockData), from the ledger's chain meta at construction, and in rollbackBlocks.")
 	r.Rule("R09.4", "roots over what is stored: the transaction root is computed from the block's own transaction slice and the receipt root from the very receipt slice that is stored with the block; no receipt field covered by Receipt.Hash is stored to after the receipt root was computed.")
+	r.Rule("R09.7", "indexes and head move together: every index entry of a block (tx meta, block hash / height / tx set) and the chain meta are written through the one batch that PersistExecutionResult / RollbackBlockChain commit; no function on that path writes to the chain store directly.")
+	c.chainBatchDiscipline("R09.7")
 	r.Rule("R09.6", "no stale chain meta: a value read from the old chain meta (height, hash, interchain count) that is stored into the chain meta a function persists / installs (persistChainMeta, UpdateChainMeta) is read after the last update of that field on the path - a copy taken before the removal loop of a rollback misses the loop's subtractions.")
 	r.Rule("R09.5", "interchain count: persisting and rolling back adjust InterchainTxCount by the same function of InterchainMeta.Counter (sum of len(Slice)).")
 	r.NotDecided = append(r.NotDecided, "blockfile internals (pinned dependency); value-level equality of stored and recomputed roots")
